@@ -217,6 +217,11 @@ impl C10 {
         K: Kernel<T, Vec<T>> + Serialize + Clone,
     {
         let n = case.x.len();
+        // the implementation sees the parameters rounded to the element type; the oracles must judge against those
+        let c_eff = T::from_f64(case.c).unwrap().to_f64().unwrap();
+        let tol_eff = T::from_f64(case.tol).unwrap().to_f64().unwrap();
+        let eps_eff = T::from_f64(case.eps).unwrap().to_f64().unwrap();
+        let _ = (tol_eff, eps_eff);
         let p = case.x[0].len();
         let x: DenseMatrix<T> = mat(&case.x);
         let y: Vec<T> = vecf(&case.y);
@@ -228,7 +233,7 @@ impl C10 {
         labels.dedup();
         let ctx = format!(
             "SVC::fit(n={}, p={}, kernel={}(g={},d={},c0={}), C={}, tol={}, epoch={}, labels={:?}, f32={})",
-            n, p, case.kernel.kind, case.kernel.gamma, case.kernel.degree, case.kernel.coef0, case.c, case.tol, case.epoch, labels, case.f32m
+            n, p, case.kernel.kind, case.kernel.gamma, case.kernel.degree, case.kernel.coef0, c_eff, tol_eff, case.epoch, labels, case.f32m
         );
         let count = Rc::new(Cell::new(0u64));
         let kern = Counting { inner, count: count.clone(), budget: case.budget };
@@ -238,8 +243,8 @@ impl C10 {
             install_tick_observer(ticks.clone(), case.budget);
             let _tg = TickGuard;
             let params = SVCParameters::default()
-                .with_c(T::from_f64(case.c).unwrap())
-                .with_tol(T::from_f64(case.tol).unwrap())
+                .with_c(T::from_f64(c_eff).unwrap())
+                .with_tol(T::from_f64(tol_eff).unwrap())
                 .with_epoch(case.epoch)
                 .with_kernel(kern);
             guarded(|| SVC::fit(&x, &y, params))
@@ -316,18 +321,18 @@ impl C10 {
             }
             let all_pos = matches.iter().all(|r| ys[*r] == labels[labels.len() - 1]);
             let all_neg = matches.iter().all(|r| ys[*r] == labels[0]);
-            let dlt = t.box_rel * case.c;
+            let dlt = t.box_rel * c_eff;
             let (lo, hi) = if all_pos {
-                (-dlt, case.c + dlt)
+                (-dlt, c_eff + dlt)
             } else if all_neg {
-                (-case.c - dlt, dlt)
+                (-c_eff - dlt, dlt)
             } else {
                 conflicting_dups = true;
-                (-case.c - dlt, case.c + dlt)
+                (-c_eff - dlt, c_eff + dlt)
             };
-            if case.c > 0.0 {
+            if c_eff > 0.0 {
                 let out = if w[i] < lo { lo - w[i] } else if w[i] > hi { w[i] - hi } else { 0.0 };
-                rep.max(if case.f32m { "box_excess_rel_f32" } else { "box_excess_rel_f64" }, out.max(0.0) / case.c);
+                rep.max(if case.f32m { "box_excess_rel_f32" } else { "box_excess_rel_f64" }, out.max(0.0) / c_eff);
             }
             if !(w[i] >= lo && w[i] <= hi) {
                 rep.fail(
@@ -342,9 +347,9 @@ impl C10 {
         }
         // 4. sum to zero
         let sw: f64 = w.iter().sum();
-        rep.max(if case.f32m { "sum_w_rel_f32" } else { "sum_w_rel_f64" }, sw.abs() / (case.c * n as f64));
-        if !(sw.abs() <= t.sum_rel * case.c * n as f64) {
-            rep.fail("sum-to-zero", "svc-dual-feasibility", format!("{}: dual coefficients sum to {:e} (|w| = {}, C = {})", ctx, sw, w.len(), case.c));
+        rep.max(if case.f32m { "sum_w_rel_f32" } else { "sum_w_rel_f64" }, sw.abs() / (c_eff * n as f64));
+        if !(sw.abs() <= t.sum_rel * c_eff * n as f64) {
+            rep.fail("sum-to-zero", "svc-dual-feasibility", format!("{}: dual coefficients sum to {:e} (|w| = {}, C = {})", ctx, sw, w.len(), c_eff));
         }
         // 5./6. kernel expansion and label rule on training + fresh rows
         let mut q: Vec<Vec<f64>> = xs.clone();
@@ -404,7 +409,7 @@ impl C10 {
         rep.count("probe.conflicting-duplicate-sv", conflicting_dups as u64);
         rep.count("probe.no-support-vectors", inst.is_empty() as u64);
         rep.count("probe.all-rows-support-vectors", (inst.len() == n) as u64);
-        rep.count("probe.coefficient-at-bound", w.iter().any(|x| (x.abs() - case.c).abs() <= 1e-9 * case.c) as u64);
+        rep.count("probe.coefficient-at-bound", w.iter().any(|x| (x.abs() - c_eff).abs() <= 1e-9 * c_eff) as u64);
         rep.count("probe.zero-coefficient-sv-kept", w.iter().any(|x| *x == 0.0) as u64);
         // schedule: the decoded visiting orders
         if !inst.is_empty() && labels.len() == 2 {
@@ -429,6 +434,11 @@ impl C10 {
         K: Kernel<T, Vec<T>> + Serialize + Clone,
     {
         let n = case.x.len();
+        // the implementation sees the parameters rounded to the element type; the oracles must judge against those
+        let c_eff = T::from_f64(case.c).unwrap().to_f64().unwrap();
+        let tol_eff = T::from_f64(case.tol).unwrap().to_f64().unwrap();
+        let eps_eff = T::from_f64(case.eps).unwrap().to_f64().unwrap();
+        let _ = (tol_eff, eps_eff);
         let p = case.x[0].len();
         let x: DenseMatrix<T> = mat(&case.x);
         let y: Vec<T> = vecf(&case.y);
@@ -436,7 +446,7 @@ impl C10 {
         let ys: Vec<f64> = y.iter().map(|v| v.to_f64().unwrap()).collect();
         let ctx = format!(
             "SVR::fit(n={}, p={}, kernel={}(g={},d={},c0={}), C={}, eps={}, tol={}, f32={})",
-            n, p, case.kernel.kind, case.kernel.gamma, case.kernel.degree, case.kernel.coef0, case.c, case.eps, case.tol, case.f32m
+            n, p, case.kernel.kind, case.kernel.gamma, case.kernel.degree, case.kernel.coef0, c_eff, eps_eff, tol_eff, case.f32m
         );
         let count = Rc::new(Cell::new(0u64));
         let kern = Counting { inner, count: count.clone(), budget: 0 };
@@ -446,9 +456,9 @@ impl C10 {
             install_tick_observer(ticks.clone(), case.budget);
             let _tg = TickGuard;
             let params = SVRParameters::default()
-                .with_c(T::from_f64(case.c).unwrap())
-                .with_tol(T::from_f64(case.tol).unwrap())
-                .with_eps(T::from_f64(case.eps).unwrap())
+                .with_c(T::from_f64(c_eff).unwrap())
+                .with_tol(T::from_f64(tol_eff).unwrap())
+                .with_eps(T::from_f64(eps_eff).unwrap())
                 .with_kernel(kern);
             guarded(|| SVR::fit(&x, &y, params))
         };
@@ -462,7 +472,7 @@ impl C10 {
         rep.count("probe.svr-iterations>1e6", (ticks.get() > 1_000_000) as u64);
         rep.count("probe.svr-iterations>1e5*n", (ticks.get() > 100_000 * n as u64) as u64);
         if ticks.get() > 100_000 {
-            rep.max(&format!("svr_slow_iters[{},C={},tol={},eps={},n={}]", case.kernel.kind, case.c, case.tol, case.eps, n), ticks.get() as f64);
+            rep.max(&format!("svr_slow_iters[{},C={},tol={},eps={},n={}]", case.kernel.kind, c_eff, tol_eff, eps_eff, n), ticks.get() as f64);
         }
         rep.count("probe.svr-drew-from-ambient-rng", (!log.words.is_empty()) as u64);
         let mut d = Digest::new();
@@ -512,14 +522,14 @@ impl C10 {
                 None => rep.fail("sv-not-training-row", "svr-model", format!("{}: support vector {} = {:?} is not a training row", ctx, i, sv)),
                 Some(r) => wrow[r] += w[i],
             }
-            rep.max(if case.f32m { "svr_box_excess_rel_f32" } else { "svr_box_excess_rel_f64" }, (w[i].abs() - case.c).max(0.0) / case.c);
-            if !(w[i].abs() <= case.c * (1.0 + t.box_rel)) {
-                rep.fail("box", "svr-dual-feasibility", format!("{}: |w_{}| = {:e} exceeds C = {}", ctx, i, w[i].abs(), case.c));
+            rep.max(if case.f32m { "svr_box_excess_rel_f32" } else { "svr_box_excess_rel_f64" }, (w[i].abs() - c_eff).max(0.0) / c_eff);
+            if !(w[i].abs() <= c_eff * (1.0 + t.box_rel)) {
+                rep.fail("box", "svr-dual-feasibility", format!("{}: |w_{}| = {:e} exceeds C = {}", ctx, i, w[i].abs(), c_eff));
             }
         }
         let sw: f64 = w.iter().sum();
-        rep.max(if case.f32m { "svr_sum_w_rel_f32" } else { "svr_sum_w_rel_f64" }, sw.abs() / (case.c * n as f64));
-        if !(sw.abs() <= t.sum_rel * case.c * n as f64) {
+        rep.max(if case.f32m { "svr_sum_w_rel_f32" } else { "svr_sum_w_rel_f64" }, sw.abs() / (c_eff * n as f64));
+        if !(sw.abs() <= t.sum_rel * c_eff * n as f64) {
             rep.fail("sum-to-zero", "svr-dual-feasibility", format!("{}: coefficients sum to {:e}", ctx, sw));
         }
         // prediction = kernel expansion; optimality conditions at every training point
@@ -550,21 +560,21 @@ impl C10 {
                     if i < n {
                         // epsilon-insensitive optimality at training point i, judged with the reference expansion
                         let r = ys[i] - f;
-                        let slack = case.tol + if case.f32m { 1e-3 } else { 1e-9 } * (yscale + mag);
+                        let slack = tol_eff + if case.f32m { 1e-3 } else { 1e-9 } * (yscale + mag);
                         let aw = wrow[i].abs();
                         let (ok, what, excess) = if aw == 0.0 {
-                            (r.abs() <= case.eps + slack, "zero weight but outside the tube", r.abs() - case.eps)
-                        } else if aw >= case.c * (1.0 - 1e-9) {
-                            (r.abs() >= case.eps - slack, "|w| = C but strictly inside the tube", case.eps - r.abs())
+                            (r.abs() <= eps_eff + slack, "zero weight but outside the tube", r.abs() - eps_eff)
+                        } else if aw >= c_eff * (1.0 - 1e-9) {
+                            (r.abs() >= eps_eff - slack, "|w| = C but strictly inside the tube", eps_eff - r.abs())
                         } else {
-                            ((r.abs() - case.eps).abs() <= slack, "0 < |w| < C but not on the tube boundary", (r.abs() - case.eps).abs())
+                            ((r.abs() - eps_eff).abs() <= slack, "0 < |w| < C but not on the tube boundary", (r.abs() - eps_eff).abs())
                         };
-                        rep.max(if case.f32m { "svr_kkt_excess_over_tol_f32" } else { "svr_kkt_excess_over_tol_f64" }, excess / case.tol);
+                        rep.max(if case.f32m { "svr_kkt_excess_over_tol_f32" } else { "svr_kkt_excess_over_tol_f64" }, excess / tol_eff);
                         if !ok {
                             rep.fail(
                                 "svr-kkt",
                                 "svr-optimality",
-                                format!("{}: training point {} has w = {:e}, residual y - f(x) = {:e}, eps = {}: {} (slack {:e})", ctx, i, wrow[i], r, case.eps, what, slack),
+                                format!("{}: training point {} has w = {:e}, residual y - f(x) = {:e}, eps = {}: {} (slack {:e})", ctx, i, wrow[i], r, eps_eff, what, slack),
                             );
                             break;
                         }
@@ -573,8 +583,8 @@ impl C10 {
             }
         }
         rep.count("probe.svr-all-zero-weights", inst.is_empty() as u64);
-        rep.count("probe.svr-weight-at-C", w.iter().any(|x| x.abs() >= case.c * (1.0 - 1e-9)) as u64);
-        rep.count("probe.svr-free-weight", w.iter().any(|x| x.abs() > 0.0 && x.abs() < case.c * (1.0 - 1e-9)) as u64);
+        rep.count("probe.svr-weight-at-C", w.iter().any(|x| x.abs() >= c_eff * (1.0 - 1e-9)) as u64);
+        rep.count("probe.svr-free-weight", w.iter().any(|x| x.abs() > 0.0 && x.abs() < c_eff * (1.0 - 1e-9)) as u64);
         let mut st = Digest::new();
         st.f64s(&wrow.iter().map(|v| v.signum()).collect::<Vec<_>>());
         rep.states.push(st.get());
@@ -697,7 +707,32 @@ impl C10 {
 // workload
 // ------------------------------------------------------------------------------------------
 
+/// log-uniform in [lo, hi]
+fn logu(r: &mut Xo, lo: f64, hi: f64) -> f64 {
+    (lo.ln() + (hi.ln() - lo.ln()) * r.f64()).exp()
+}
+
 fn gen_kernel(r: &mut Xo, psd_only: bool, small_poly: bool) -> KSpec {
+    let mut k = gen_kernel_grid(r, psd_only, small_poly);
+    // half of the time off the grid: continuous kernel parameters
+    if r.chance(0.5) {
+        match k.kind.as_str() {
+            "rbf" => k.gamma = logu(r, 0.01, 10.0),
+            "poly" => {
+                k.gamma = logu(r, 0.1, 1.0);
+                k.coef0 = r.range(0.0, 2.0);
+            }
+            "sigmoid" => {
+                k.gamma = logu(r, 0.01, 0.5);
+                k.coef0 = r.range(-1.0, 1.0);
+            }
+            _ => {}
+        }
+    }
+    k
+}
+
+fn gen_kernel_grid(r: &mut Xo, psd_only: bool, small_poly: bool) -> KSpec {
     let kinds: &[&str] = if psd_only { &["linear", "rbf", "poly"] } else { &["linear", "rbf", "poly", "sigmoid"] };
     let kind = r.pick(kinds).to_string();
     match kind.as_str() {
@@ -892,13 +927,18 @@ fn gen_case(batch: &str, index: u64, seed: u64) -> Case {
             // keep to the region where SMO converges quickly (slow convergence is not a violation and
             // must never be mistaken for one): RBF with any C; linear / polynomial with C = 10 only at tol = 1e-2
             let mut c = if kernel.kind == "rbf" { *pr.pick(&[0.1, 1.0, 10.0, 100.0]) } else { *pr.pick(&[0.1, 1.0, 10.0]) };
-            let tol = *pr.pick(&[1e-2, 1e-3, 1e-4]);
+            let mut tol = *pr.pick(&[1e-2, 1e-3, 1e-4]);
+            if pr.chance(0.5) {
+                // off the grid (kept inside the fast-converging region by the clamps below)
+                c = logu(&mut pr, 0.1, c);
+                tol = logu(&mut pr, tol, 1e-2);
+            }
             if kernel.kind != "rbf" && c > 1.0 && tol < 1e-2 {
                 c = 1.0;
             }
             let tol = if kernel.kind == "poly" && tol < 1e-3 { 1e-3 } else { tol };
             let budget = 500_000_000;
-            Case { model: "svr".into(), x, y, kernel, c, tol, epoch: 0, eps: *pr.pick(&[0.0, 0.05, 0.1, 0.5]), f32m, queries, budget, tape: TapeSpec::prng(tape_seed), kind: "svr".into() }
+            Case { model: "svr".into(), x, y, kernel, c, tol, epoch: 0, eps: if pr.chance(0.5) { *pr.pick(&[0.0, 0.05, 0.1, 0.5]) } else { pr.range(0.0, 0.5) }, f32m, queries, budget, tape: TapeSpec::prng(tape_seed), kind: "svr".into() }
         }
         _ => {
             // SVC batches
@@ -917,8 +957,8 @@ fn gen_case(batch: &str, index: u64, seed: u64) -> Case {
                 }
                 dkind.push_str("+offset");
             }
-            let c = *pr.pick(&[0.1, 1.0, 10.0, 100.0]);
-            let tol = *pr.pick(&[1e-2, 1e-3, 1e-4]);
+            let c = if pr.chance(0.5) { *pr.pick(&[0.1, 1.0, 10.0, 100.0]) } else { logu(&mut pr, 0.1, 100.0) };
+            let tol = if pr.chance(0.5) { *pr.pick(&[1e-2, 1e-3, 1e-4]) } else { logu(&mut pr, 1e-4, 1e-2) };
             let epoch = pr.usize_in(1, 4);
             let nq = pr.usize_in(0, 6);
             let s = x.iter().flatten().fold(0.0f64, |m, v| m.max(v.abs())).max(0.1);
